@@ -1165,8 +1165,10 @@ class HTMLDocument:
             and cast(Tag, content[0]).name == "html"
         ):
             html = cast(Tag, content[0])
-            html.attrs.update(**self._html_attr_args)
+            # tagify() returns an independent copy: apply the document's html attributes to
+            # that copy, not to the caller's tag.
             html = html.tagify()
+            html.attrs.update(**self._html_attr_args)
             html = HTMLDocument._hoist_head_content(html, lib_prefix, include_version)
             return html
 
